@@ -4,6 +4,7 @@ Nothing in here looks at source text to decide anything; spans are only used for
 """
 import json
 import os
+import re as _re
 from collections import defaultdict, deque
 
 
@@ -267,7 +268,10 @@ class World:
             return self._reified
         out = defaultdict(set)
         for f in self.fns.values():
-            for b in f.blocks:
+            allblocks = list(f.blocks)
+            for pb in f.raw.get('promoted', []):
+                allblocks += pb['blocks']
+            for b in allblocks:
                 for s in b['s']:
                     r = s.get('r')
                     if not r or r.get('rv') != 'cast':
@@ -353,17 +357,19 @@ class World:
                     # callee's generic arguments
                     mentioned = set()
                     for a in fr.get('ra', fr.get('a', [])):
-                        for _, tt in c.ty_walk(a):
+                        for _, tt in ty_walk_no_handles(c, a):
                             if tt['k'] == 'adt' and tt['n'] in impls_by_type:
                                 mentioned.add(tt['n'])
                             if tt['k'] == 'closure' and tt['n'] in self.fns:
                                 cg[f.path].add(tt['n'])
                             if tt['k'] == 'fndef' and tt['n'] in self.fns:
                                 cg[f.path].add(tt['n'])
+                    want = ext_traits_needed(name)
                     for n in mentioned:
                         for (tr, it) in impls_by_type[n]:
                             if tr.startswith('std::') or tr.startswith('core::'):
-                                cg[f.path].add(it)
+                                if want is None or tr in want:
+                                    cg[f.path].add(it)
                 else:
                     tstr = norm_fnptr(c.tstr(fr['t']))
                     tk = c.ty(fr['t'])['k']
@@ -451,11 +457,112 @@ class World:
         return None
 
 
+_FMT = {'std::fmt::Display', 'std::fmt::Debug'}
+_EQ = {'std::cmp::PartialEq', 'std::cmp::Eq'}
+_HASH = {'std::hash::Hash', 'std::cmp::PartialEq', 'std::cmp::Eq'}
+_CLONE = {'std::clone::Clone'}
+
+
+def ext_traits_needed(name):
+    """which std traits of the type arguments an external generic function may call back into;
+    None = unknown (all of them)"""
+    n = strip_generics(name)
+    m = _re.match(r"^<.* as ([\w:]+)(<.*>)?>::(\w+)$", n)
+    if m:
+        tr = m.group(1)
+        if tr in ('std::cmp::PartialEq', 'std::cmp::Eq', 'std::cmp::PartialOrd', 'std::cmp::Ord'):
+            return _EQ | {'std::cmp::PartialOrd', 'std::cmp::Ord'}
+        if tr in ('std::fmt::Display', 'std::fmt::Debug', 'std::fmt::Write', 'std::string::ToString'):
+            return _FMT
+        if tr == 'std::hash::Hash':
+            return {'std::hash::Hash'}
+        if tr == 'std::clone::Clone':
+            return _CLONE
+        if tr in ('std::ops::Deref', 'std::ops::DerefMut', 'std::iter::Iterator', 'std::iter::IntoIterator', 'std::ops::Index',
+                  'std::ops::IndexMut', 'std::ops::Drop', 'std::default::Default', 'std::convert::From', 'std::convert::Into',
+                  'std::convert::AsRef', 'std::borrow::Borrow', 'std::ops::Try', 'std::ops::FromResidual', 'std::iter::FromIterator',
+                  'std::iter::Extend', 'std::iter::DoubleEndedIterator', 'std::iter::ExactSizeIterator', 'std::convert::TryInto',
+                  'std::convert::TryFrom', 'std::hash::Hasher', 'std::hash::BuildHasher', 'std::ops::Fn', 'std::ops::FnMut',
+                  'std::ops::FnOnce', 'std::slice::SliceIndex', 'std::str::FromStr', 'std::iter::Sum', 'std::ops::Not'):
+            if tr in ('std::iter::FromIterator', 'std::iter::Extend') and 'HashMap' in n:
+                return _HASH
+            return set()
+    if n in ('std::vec::partial_eq::eq', 'std::cmp::impls::eq', 'std::cmp::impls::ne', 'std::cmp::impls::cmp', 'std::cmp::impls::partial_cmp',
+             'core::str::traits::eq', 'std::array::equality::eq', 'core::slice::cmp::eq'):
+        return _EQ | {'std::cmp::PartialOrd', 'std::cmp::Ord'}
+    if n in ('std::clone::impls::clone', 'std::vec::from_elem'):
+        return _CLONE
+    if n in ('std::rt::panic_fmt', 'std::rt::begin_panic', 'core::panicking::panic', 'core::panicking::panic_fmt'):
+        return _FMT
+    if n.startswith('std::iter::Iterator::') or n.startswith('std::iter::') or n.startswith('core::str::') or n.startswith('core::num::') \
+            or n.startswith('core::f64::') or n.startswith('std::f64::') or n.startswith('std::string::String::') or n.startswith('std::path::') \
+            or n.startswith('std::time::') or n.startswith('std::pin::Pin::') or n.startswith('std::char::') or n.startswith('std::io::') \
+            or n.startswith('std::fs::') or n.startswith('std::env::') or n.startswith('std::hint::') or n.startswith('std::thread::') \
+            or n.startswith('std::array::') or n.startswith('std::str::') or n.startswith('std::process::') or n.startswith('std::any::') \
+            or n in ('std::default::Default::default', 'std::ops::Fn::call', 'std::ops::FnMut::call_mut', 'std::ops::FnOnce::call_once',
+                     'std::hash::Hasher::write_u64', 'core::hash::impls::hash', 'std::slice::join', 'std::ffi::OsStr::to_str',
+                     'std::boxed::box_assume_init_into_vec_unsafe'):
+        return set()
+    if 'fmt::rt::Argument' in n:
+        if n.endswith('new_display'):
+            return {'std::fmt::Display'}
+        if n.endswith('new_debug'):
+            return {'std::fmt::Debug'}
+        return _FMT
+    if n.startswith('std::fmt::') or n.startswith('core::fmt::') or n in ('std::io::_print', 'std::io::_eprint', 'alloc::fmt::format',
+                                                                          'std::fmt::format', 'alloc::fmt::format::format_inner'):
+        return _FMT
+    if n.endswith('PartialEq>::eq') or n.endswith('PartialEq>::ne') or n.endswith('::PartialEq::eq') or n.endswith('::PartialEq::ne'):
+        return _EQ
+    if n.startswith('std::collections::HashMap::') or n.startswith('std::collections::hash_map::'):
+        tail = n.rsplit('::', 1)[-1]
+        if tail in ('insert', 'get', 'get_mut', 'remove', 'contains_key', 'entry', 'or_insert_with', 'or_insert', 'retain', 'get_key_value'):
+            return _HASH
+        if tail in ('clone',):
+            return _CLONE | _HASH
+        if tail in ('len', 'is_empty', 'iter', 'iter_mut', 'keys', 'values', 'values_mut', 'clear', 'with_hasher', 'new', 'drain', 'next',
+                    'into_iter'):
+            return set()
+    if n.endswith('Clone>::clone') or n.endswith('::Clone::clone') or n.endswith('::to_vec') or n.endswith('::to_owned'):
+        return _CLONE
+    if n.endswith('Hash>::hash') or n.endswith('::Hash::hash'):
+        return {'std::hash::Hash'}
+    if n.startswith('std::vec::Vec::') or n.startswith('core::slice::') or n.startswith('std::option::Option::') \
+            or n.startswith('std::result::Result::') or n.startswith('std::cell::') or n.startswith('std::mem::') \
+            or n.startswith('std::ptr::') or n.startswith('core::ptr::') or n.startswith('std::boxed::Box::'):
+        tail = n.rsplit('::', 1)[-1]
+        if tail in ('contains', 'dedup', 'sort', 'starts_with', 'ends_with', 'binary_search'):
+            return None
+        if tail in ('clone', 'cloned', 'to_vec', 'extend_from_slice', 'resize'):
+            return _CLONE
+        return set()
+    return None
+
+
+def ty_walk_no_handles(c, tid, seen=None):
+    """like Crate.ty_walk but does not look inside Gc/Root/UniqueRoot: std-trait impls of a handle never call
+    the pointee's impls (the workspace's own impls for handles are separate functions with their own edges)"""
+    if seen is None:
+        seen = set()
+    if tid in seen:
+        return
+    seen.add(tid)
+    t = c.types[tid]
+    yield tid, t
+    if t['k'] == 'adt' and t['n'] in ('yarel::memory::Gc', 'yarel::memory::Root', 'yarel::memory::UniqueRoot'):
+        return
+    for a in t.get('a', []):
+        yield from ty_walk_no_handles(c, a, seen)
+    if 't' in t:
+        yield from ty_walk_no_handles(c, t['t'], seen)
+
+
 def norm_fnptr(s):
     # fn-pointer type strings differ only by region names between sites: normalise them away
     import re
     s = re.sub(r"for<[^>]*>\s*", '', s)
     s = re.sub(r"'[a-zA-Z_0-9]+\s*", '', s)
+    s = s.replace('yarel::', '')
     return s
 
 
